@@ -420,20 +420,22 @@ func cmdCheck(args []string) {
 		fmt.Println(l)
 	}
 	fmt.Printf("property %s: %d/%d obligations discharged, %d functions, %d canaries, %.1fs\n", pid, discharged, total, len(fnList), canaries, time.Since(t0).Seconds())
-	if len(engineErrs) > 0 {
-		for _, e := range engineErrs {
-			fmt.Println("ENGINE-ERROR:", e)
-		}
-		os.Exit(2)
+	for _, e := range engineErrs {
+		fmt.Println("ENGINE-ERROR:", e)
 	}
-	if total == 0 {
-		engineFail("no obligations generated")
-	}
+	// failed obligations decide first: a changed tree that breaks obligations AND confuses a canary is a violation (exit 1),
+	// not a broken check; a run with engine errors only cannot vouch for anything (exit 2)
 	if len(violations) > 0 {
 		for _, v := range violations {
 			fmt.Println(v)
 		}
 		os.Exit(1)
+	}
+	if len(engineErrs) > 0 {
+		os.Exit(2)
+	}
+	if total == 0 {
+		engineFail("no obligations generated")
 	}
 	os.Exit(0)
 }
@@ -501,7 +503,7 @@ var undecidedClauses = map[string][]string{
 	"C17": {"replaying recorded history reproduces the balances (whole history)", "paging exactly-once beyond the stated bound (SQL LIMIT/OFFSET)"},
 	"C18": {"interleavings and data races as such (argument: empty frame on shared memory)", "the unsynchronised read of Sync.Synced", "SQLite isolation between pool connections and the block transaction", "the closure returned by getTransactions"},
 	"C19": {"pegnet.New / Init (opening the database file, migrations) are assumed not to touch ledger content"},
-	"C20": {"acceptance of exactly the canonical JSON language and the encode/decode round trip (encoding/json, jsonlen)"},
+	"C20": {"acceptance of exactly the canonical JSON language and the encode/decode round trip beyond the stated bound (encoding/json, jsonlen)"},
 }
 
 // properties whose deciding function is outside the verified subset: the contract of that function is stated and used by the
